@@ -26,7 +26,7 @@ CHECKS = {
          'that a directed add is refused with CyclicConnectionError exactly when it closes a cycle (add_edge_cyclic_iff), and that is_dag is true '
          'exactly for all-directed acyclic graphs with no acyclicity premise (is_dag_spec). Tied to the code by step-by-step correspondence on '
          'cycle-seeking histories and by running every constructor on every binary matrix up to a bound. The constructors are covered by theorems too (CtorAcyclicProofs.v, CtorAcyclicLag.v): from_dict on ANY JSON input, from_adjacency_matrix (deferred validation), from_networkx, from_skeleton, Skeleton constructors and from_adjacency_matrices yield an acyclic graph or CyclicConnectionError, the validated call succeeds exactly when the unvalidated result is acyclic, and is_dag is exact on every constructed graph; the source fact \'validate defaults to True in all 15 functions that take it\' is regenerated and re-proved on every run.',
-    note=TB + 'networkx.is_directed_acyclic_graph is modelled by its specification (acyclicb); GML parsing is exercised, not modelled. The cycle check itself (_assert_node_does_not_depend_on_itself) is additionally TRANSLATED from causal_graph.py on every run (tools/translate_traversal.py -> TraversalGenCyc.v) and the translation is proved equal to the stack-loop model for every fuel and to decide "on a directed cycle" on every invariant graph state; the translated code is compared with the real method on every run (DESIGN 3.4).',
+    note=TB + 'The edge-adding path (_set_edge with its validation and rollback, add_edge) is TRANSLATED as well (MutGenAdd.v): a validated generated add_edge keeps the directed part acyclic and is refused exactly when it closes a cycle (gen_add_edge_acyclic, gen_add_edge_cyclic_iff); self-loops are probed in every argument form (F18, repaired) (DESIGN 3.7). add_edge, _set_edge, _prepare_nodes and add_node are additionally TRANSLATED from causal_graph.py on every run (tools/translate_add_edge.py -> MutGenAdd.v) and proved equal to the model in result and leftover state; the add_edge / add_node steps of the histories are also run through the generated code; a refusal of the translator falls back to the hand-written model and its correspondence (DESIGN 3.7). networkx.is_directed_acyclic_graph is modelled by its specification (acyclicb); GML parsing is exercised, not modelled. The cycle check itself (_assert_node_does_not_depend_on_itself) is additionally TRANSLATED from causal_graph.py on every run (tools/translate_traversal.py -> TraversalGenCyc.v) and the translation is proved equal to the stack-loop model for every fuel and to decide "on a directed cycle" on every invariant graph state; the translated code is compared with the real method on every run (DESIGN 3.4).',
     technique='Coq proof of loop correctness (on the loop translated from the source on every run) + acyclicity invariant; correspondence', design='§7 C02'),
  'C04': dict(
     text='Machine-checked meta-theorem (Cache.v) that for EVERY interleaving of reads and mutations a cached read equals the uncached function '
